@@ -153,16 +153,24 @@ def r1_one_reply(L, repo, force_shape=False):
         if len(ver) != 1:
             return DATA, REMOTE
         decode_x = [x for x in exc if ".decode(" in x]
-        n = 0
-        for vals, evs in sorted(rows.items(), key=lambda kv: repr(kv[0])):
-            a = dict(zip(atoms, vals))
-            sends = [e for e in evs if e[0] == "send"]
-            want = 0 if (any(a[x] for x in decode_x) or not a[ver[0]]) else 1
-            n += 1
-            L.ob("C05.R1", FC, fn, "replies sent when %s" % ", ".join(
-                "%s=%d" % (k[:40], v) for k, v in sorted(a.items())), want, [s_[1] for s_ in sends],
-                len(sends) == want)
-        L.floor("C05.R1", "rows of the receive-path table", n, 4)
+
+        def rows_check():
+            n = 0
+            for vals, evs in sorted(rows.items(), key=lambda kv: repr(kv[0])):
+                a = dict(zip(atoms, vals))
+                sends = [e for e in evs if e[0] == "send"]
+                want = 0 if (any(a[x] for x in decode_x) or not a[ver[0]]) else 1
+                n += 1
+                L.ob("C05.R1", FC, fn, "replies sent when %s" % ", ".join(
+                    "%s=%d" % (k[:40], v) for k, v in sorted(a.items())), want, [s_[1] for s_ in sends],
+                    len(sends) == want)
+            L.floor("C05.R1", "rows of the receive-path table", n, 4)
+        if other:
+            # additional conditions (correlated with the signature test in ways a boolean table cannot know): the
+            # table is the structural record, the fold has decided
+            L.structural("C05.R1 reply count per valuation of the receive path's conditions", rows_check)
+        else:
+            rows_check()
         return DATA, REMOTE
     L.require("C05.R1", FC, fn, "atoms of the receive path (signature test, tuple test, exception oracles)",
               (1, 1, []), (len(ver), len(tup), other))
